@@ -25,7 +25,7 @@ package main
 // parent as CRASH; a transition that never returns is reported as HANG (bounded
 // progress, see reportHang) and ends the batch.
 //
-// Further case classes: two-attempt cases (genTwoAttempt), stale-result cases (genStale), late-report cases (a hook task reports exit 0 after the
+// Further case classes: evaluation-error cases (genEval), two-attempt cases (genTwoAttempt), stale-result cases (genStale), late-report cases (a hook task reports exit 0 after the
 // environment has accounted it as timed out, a gated sibling of the same trigger
 // command still pending: the outcome must be the timeout outcome) and sibling
 // cases (one failing critical call, healthy gated calls awaited at the same
@@ -72,11 +72,95 @@ var targetEvents = []string{"CONFIGURE", "START_ACTIVITY", "STOP_ACTIVITY", "RES
 // failing critical call, gated healthy calls at the same await point), before
 // them `stale` cases (a call result that waits for its await point longer than the
 // hook's timeout).
-func c09Sizes(tier string) (singles, total, late, sib, stale, two int) {
+func c09Sizes(tier string) (singles, total, late, sib, stale, two, eval int) {
 	if tier == "thorough" {
-		return 2400, 10000, 300, 600, 600, 600
+		return 2400, 10000, 300, 600, 600, 600, 800
 	}
-	return 96, 384, 16, 24, 24, 24
+	return 96, 424, 16, 24, 24, 24, 40
+}
+
+// evalKinds: hook expressions that cannot be evaluated, each a failure of the call on
+// the unchanged tree (checked one by one; the error text carries the expression).
+// NOT among them: a plain undefined variable as argument, verif.Echo(undefined) -
+// the template environment reads it as empty and the call succeeds.
+var evalKinds = []struct{ Name, Format string }{
+	{"unknown-plugin", "dcs_%s.StartOfRun()"},
+	{"unknown-function", "verif.NoSuchFunc_%s()"},
+	{"field-of-undefined-variable", "verif.Echo(undefined_%s.field)"},
+	{"malformed", "verif.Probe(%s"},
+	{"wrong-arguments", "verif.Probe(\"%s\")"},
+}
+
+// genEval: one (sometimes two) call hooks whose `func:` expression cannot be evaluated,
+// critical or not, failing point at each of the four moments of a target whose
+// moments occur nowhere else in the walk (the expression fails in every
+// invocation), awaited where triggered or triggered earlier in the same
+// transition. An evaluation error is a failure of that call: ordinary table.
+func genEval(r *rand.Rand, hc HookCase, v int) HookCase {
+	hc.Eval = true
+	m := failMoments[v%4]
+	critical := (v/4)%2 == 0
+	sub := (v / 8) % len(evalKinds)
+	evs := []string{"DEPLOY", "CONFIGURE", "START_ACTIVITY"}
+	ev := evs[r.Intn(len(evs))]
+	prefix := prefixes[ev][0]
+	hc.Walk = append(append([]string{}, prefix...), ev)
+	hc.Target = len(prefix)
+	occs := occurrencesOf(hc.Walk)
+	tocc := occs[hc.Target]
+	w := pickWeight(r)
+	hc.FailPoint = envlab.Expr(tocc.Moments()[m], w)
+	n := 1
+	if r.Intn(4) == 0 {
+		n = 2
+	}
+	for i := 0; i < n; i++ {
+		name := fmt.Sprintf("e%d", i)
+		k := evalKinds[(sub+i)%len(evalKinds)]
+		h := envlab.HookSpec{Name: name, Kind: envlab.Call, Behaviour: envlab.CallEvalError, Func: fmt.Sprintf(k.Format, name)}
+		h.Trigger = spell(r, tocc.Moments()[m], w)
+		switch r.Intn(3) {
+		case 0:
+			h.Await = spell(r, tocc.Moments()[m], w)
+		case 1:
+			// triggered earlier in the same transition, awaited at the failing point
+			h.Await = spell(r, tocc.Moments()[m], w)
+			var earlier []int
+			for _, mi := range []int{envlab.MBefore, envlab.MLeave, envlab.MEnter, envlab.MAfter} {
+				if mi < m {
+					earlier = append(earlier, mi)
+				}
+			}
+			if len(earlier) > 0 && r.Intn(2) == 0 {
+				h.Trigger = spell(r, tocc.Moments()[earlier[r.Intn(len(earlier))]], pickWeight(r))
+			} else {
+				h.Trigger = spell(r, tocc.Moments()[m], w-1-r.Intn(50))
+			}
+		}
+		if critical || i > 0 && r.Intn(2) == 0 {
+			if r.Intn(2) == 0 {
+				t := true
+				h.Critical = &t
+			}
+		} else {
+			f := false
+			h.Critical = &f
+		}
+		hc.Hooks = append(hc.Hooks, h)
+		hc.Failing = append(hc.Failing, name)
+	}
+	cont := append([]string{}, hc.Walk...)
+	if evs := envlab.LegalEvents(tocc.Dst); len(evs) > 0 {
+		cont = append(cont, evs[0])
+	}
+	if nb := r.Intn(5); nb > 0 {
+		hc.Hooks = append(hc.Hooks, genHooks(r, cont, nb, "b", r.Intn(2) == 0)...)
+	}
+	if r.Intn(3) == 0 {
+		hc.Hooks = append(hc.Hooks, sentinels(cont)...)
+	}
+	r.Shuffle(len(hc.Hooks), func(i, j int) { hc.Hooks[i], hc.Hooks[j] = hc.Hooks[j], hc.Hooks[i] })
+	return hc
 }
 
 // twoTimeout is the timeout trait of the hook task of a two-attempt case.
@@ -321,7 +405,7 @@ func genStale(r *rand.Rand, hc HookCase, v int) HookCase {
 	return hc
 }
 
-func genC09(c *vlib.Ctx, idx int64, singles, total, late, sib, stale, two int) HookCase {
+func genC09(c *vlib.Ctx, idx int64, singles, total, late, sib, stale, two, eval int) HookCase {
 	r := c.SubRand(idx)
 	hc := HookCase{Prop: "C09", Idx: idx, FollowUp: true}
 	hc.GoMaxProcs = 1
@@ -335,6 +419,9 @@ func genC09(c *vlib.Ctx, idx int64, singles, total, late, sib, stale, two int) H
 	isSib := !isLate && int(idx) >= total-late-sib
 	if !isLate && !isSib && int(idx) >= total-late-sib-stale {
 		return genStale(r, hc, int(idx)-(total-late-sib-stale))
+	}
+	if base := total - late - sib - stale - two - eval; int(idx) >= base && int(idx) < base+eval {
+		return genEval(r, hc, int(idx)-base)
 	}
 	if int(idx) >= total-late-sib-stale-two && int(idx) < total-late-sib-stale {
 		return genTwoAttempt(r, hc, int(idx)-(total-late-sib-stale-two))
@@ -518,7 +605,7 @@ func runC09() {
 		dumpOutcome(out, checkC09(out, lab))
 		return
 	}
-	singles, total, late, sib, stale, two := c09Sizes(c.Tier)
+	singles, total, late, sib, stale, two, eval := c09Sizes(c.Tier)
 	// interleave: batch b takes indices b, b+nbatch, ... so that every batch has singles and multis
 	nb := c.NBatch
 	if nb < 1 {
@@ -526,7 +613,7 @@ func runC09() {
 	}
 	first := true
 	for i := c.Batch; i < total; i += nb {
-		hc := genC09(c, int64(i), singles, total, late, sib, stale, two)
+		hc := genC09(c, int64(i), singles, total, late, sib, stale, two, eval)
 		id := c.Case(hc)
 		out, lab, err := execC09(w, hc)
 		if err != nil {
@@ -615,6 +702,12 @@ func execC09(w *envlab.World, hc HookCase) (*caseOutcome, *envlab.Lab, error) {
 				if (h.Behaviour == envlab.TaskTimeout || h.Behaviour == envlab.TaskLateReport) && nocc.MomentIndex(fn) >= 0 {
 					next = ""
 				}
+				if h.Behaviour == envlab.CallEvalError { // fails whenever invoked
+					tn, _ := envlab.ParseExpr(h.Trigger)
+					if nocc.MomentIndex(tn) >= 0 || nocc.MomentIndex(fn) >= 0 {
+						next = ""
+					}
+				}
 			}
 		}
 		if next != "" {
@@ -682,6 +775,21 @@ func countC09(c *vlib.Ctx, out *caseOutcome) {
 		if out.SecondDone && out.Spurious == 0 {
 			c.Count("two_attempt_cases_judged", 1)
 			c.Count("two_attempt_second_"+string(hc.Second), 1)
+		}
+	}
+	if hc.Eval {
+		c.Count("eval_error_cases", 1)
+		for _, h := range hc.Hooks {
+			if h.Behaviour == envlab.CallEvalError {
+				for _, k := range evalKinds {
+					if h.Func == fmt.Sprintf(k.Format, h.Name) {
+						c.Count("eval_error_"+k.Name, 1)
+					}
+				}
+				if !sameExpr(h.AwaitExpr(), h.Trigger) {
+					c.Count("eval_error_await_later", 1)
+				}
+			}
 		}
 	}
 	if hc.Stale {
@@ -774,6 +882,9 @@ func failuresOf(out *caseOutcome, k int, lab *envlab.Lab) []failure {
 			continue
 		}
 		tok := envlab.FailureText(h.Name, h.Behaviour)
+		if h.Behaviour == envlab.CallEvalError {
+			tok = h.Func // the evaluation error quotes the expression
+		}
 		if h.Kind == envlab.Task {
 			tok = lab.TaskName(h.Name) // exit code, involuntary termination, timeout (also when a report arrives later)
 		}
@@ -926,6 +1037,9 @@ func checkC09(out *caseOutcome, lab *envlab.Lab) []violation {
 					add("RAN", "body-skipped:"+tag, fmt.Sprintf("transition #%d %s: the task transition did not run", k, occ.Event))
 				}
 				for _, h := range hc.Hooks {
+					if h.Behaviour == envlab.CallEvalError {
+						continue // its plugin function is never reached: no record to expect
+					}
 					tn, _ := envlab.ParseExpr(h.Trigger)
 					if occ.MomentIndex(tn) >= 0 && !startedIn(k, h.Name) {
 						add("RAN", "hook-skipped:"+tag, fmt.Sprintf("transition #%d %s: hook %s (%s) did not run", k, occ.Event, h.Name, h.Trigger))
@@ -995,6 +1109,9 @@ func checkC09(out *caseOutcome, lab *envlab.Lab) []violation {
 			}
 			for _, h := range hc.Hooks {
 				hn, _ := envlab.ParseExpr(h.Trigger)
+				if h.Behaviour == envlab.CallEvalError {
+					continue
+				}
 				if hm := occ.MomentIndex(hn); hm > m && !startedIn(k, h.Name) {
 					add("RAN", "remaining-moment-skipped:"+tag,
 						fmt.Sprintf("transition #%d %s: hook %s (%s) of a later moment did not run after the failure at %s", k, occ.Event, h.Name, h.Trigger, hc.FailPoint))
